@@ -68,8 +68,14 @@ const (
 )
 
 type behaviour struct {
-	status      int // 0 = WriteHeader is not called
-	body        bool
+	status int // 0 = WriteHeader is not called
+	body   bool
+	// flush > 0: the first thing the handler does with its writer is flush it (1 Flush(), 2 FlushError(), 3 through
+	// http.NewResponseController): a streaming handler that wants the header out before its first chunk. On a writer that
+	// can flush this sends the implicit 200; bareOrigin: the writer under the Mux offers Header, Write and WriteHeader
+	// only (behind http.TimeoutHandler, a middleware's wrapper), and the flush sends nothing.
+	flush       int
+	bareOrigin  bool
 	bodyKind    int // when body: 0 one non-empty Write, 1 a zero-length Write, 2 a zero-length Write followed by a non-empty one, 3 two non-empty Writes
 	panicKind   int
 	panicBefore bool // panic before writing anything
@@ -97,6 +103,12 @@ func (b behaviour) String() string {
 	}
 	if b.ctxDone > 0 {
 		s += []string{"", " (request context already cancelled)", " (handler swaps in a request past its deadline)"}[b.ctxDone]
+	}
+	if b.flush > 0 {
+		s += []string{"", " flushesFirst(Flush)", " flushesFirst(FlushError)", " flushesFirst(ResponseController)"}[b.flush]
+	}
+	if b.bareOrigin {
+		s += " (writer under the Mux cannot flush)"
 	}
 	if b.body {
 		s += []string{"", "(zero-length write)", "(zero-length, then data)", "(two writes)", "(io.Copy from a reader)", "(io.WriteString)", "(fmt.Fprintf)"}[b.bodyKind%7]
@@ -182,6 +194,9 @@ func (b behaviour) panicNode() lm.Node {
 }
 
 func (b behaviour) wroteAnything() bool {
+	if b.flush > 0 && !b.bareOrigin {
+		return true // the flush has sent the header with the implicit 200, whatever happens next
+	}
 	if b.panicKind != pNone && b.panicBefore {
 		return false
 	}
@@ -270,6 +285,14 @@ func handlerFor() httpd.HandlerFunc {
 			s.W.Header().Set("Connection", "close")
 			s.W.Header().Set("Trailer", "X-Done")
 		}
+		switch b.flush {
+		case 1:
+			s.W.Flush()
+		case 2:
+			s.W.FlushError()
+		case 3:
+			http.NewResponseController(s.W).Flush()
+		}
 		if b.invalidCode != 0 {
 			s.W.WriteHeader(b.invalidCode) // net/http panics: "invalid WriteHeader code ..."
 		}
@@ -287,6 +310,13 @@ func handlerFor() httpd.HandlerFunc {
 		}
 	}
 }
+
+// bareWriter is an http.ResponseWriter and nothing else.
+type bareWriter struct{ w http.ResponseWriter }
+
+func (b bareWriter) Header() http.Header         { return b.w.Header() }
+func (b bareWriter) Write(p []byte) (int, error) { return b.w.Write(p) }
+func (b bareWriter) WriteHeader(code int)        { b.w.WriteHeader(code) }
 
 func writeBody(s *httpd.Store, b behaviour) {
 	switch b.bodyKind % 7 {
@@ -498,9 +528,14 @@ func genBatch(t *rapid.T) *batch {
 			bh.panicKind = pAbort
 			bh.panicBefore = rapid.Bool().Draw(t, "abortBefore")
 		}
+		if bh.invalidCode == 0 && bh.panicKind != pAbort && rapid.IntRange(0, 4).Draw(t, "flushesFirst") == 0 {
+			bh.flush = rapid.IntRange(1, 3).Draw(t, "flushHow")
+			bh.status = 0 // a status after the flush would come too late on a writer that flushed: not this harness' business
+		}
+		bh.bareOrigin = rapid.IntRange(0, 3).Draw(t, "writerUnderTheMuxIsBare") == 0
 		rq.b = bh
 		b.reqs = append(b.reqs, rq)
-		if rq.matched && bh.panicKind == pNone && bh.status == 0 && !bh.body && bh.ctxDone == 0 && rapid.IntRange(0, 3).Draw(t, "forwards") == 0 {
+		if rq.matched && bh.flush == 0 && bh.panicKind == pNone && bh.status == 0 && !bh.body && bh.ctxDone == 0 && rapid.IntRange(0, 3).Draw(t, "forwards") == 0 {
 			// this handler writes nothing itself: it forwards another request through the Mux with its own Store.W
 			inner := &request{method: "GET", uri: fmt.Sprintf("/h/f%d", i), remote: rq.remote, wantIP: rq.wantIP, matched: true, viaForward: true,
 				b: behaviour{status: rapid.SampledFrom([]int{0, 201, 404, 418, 503}).Draw(t, "forwardedStatus"), body: rapid.Bool().Draw(t, "forwardedBody")}}
@@ -537,9 +572,13 @@ func runBatch(b *batch, realServer bool) string {
 		}
 		req = req.WithContext(ctx)
 		rec := httptest.NewRecorder()
+		var w http.ResponseWriter = rec
+		if rq.b.bareOrigin {
+			w = bareWriter{rec}
+		}
 		func() {
 			defer func() { rq.escaped = recover() }()
-			mux.ServeHTTP(rec, req)
+			mux.ServeHTTP(w, req)
 		}()
 		rq.code = rec.Code
 		rq.bodyText = rec.Body.String()
@@ -778,6 +817,13 @@ func TestBatches(t *testing.T) {
 			if !rq.matched {
 				ev.Label("unmatched_route")
 			}
+			if rq.matched && rq.b.flush > 0 {
+				if rq.b.bareOrigin {
+					ev.Label("handler_flushes_first_on_a_writer_that_cannot_flush")
+				} else {
+					ev.Label("handler_flushes_first")
+				}
+			}
 			if rq.getOnly && !rq.matched {
 				ev.Label("other_method_on_a_GET-only_route:" + rq.method)
 			}
@@ -807,11 +853,21 @@ func TestRealServer(t *testing.T) {
 		// io.ReaderFrom and io.StringWriter, which a recorder does not), with and without a panic afterwards
 		"10": {body: true, bodyKind: 4, panicKind: pString, pstr: "after a streamed body"}, "11": {body: true, bodyKind: 4}, "12": {body: true, bodyKind: 5, panicKind: pInt, pint: 3},
 		"13": {body: true, bodyKind: 6, panicKind: pError, pstr: "after Fprintf"}, "14": {status: 206, body: true, bodyKind: 4, panicKind: pString, pstr: "x"},
+		// a streaming handler that flushes the header out first; the connection has sent its 200 by the time the handler panics
+		"15": {flush: 1, panicKind: pString, pstr: "after a flush"}, "16": {flush: 2, body: true}, "17": {flush: 3, panicKind: pInt, pint: 9}, "18": {flush: 1},
 	}
 	mux.Handle("/h/:id", httpd.MethodAll, func(s *httpd.Store) {
 		b := behaviours[s.RouteParam("id")]
 		if b.panicKind != pNone && b.panicBefore {
 			doPanic(b)
+		}
+		switch b.flush {
+		case 1:
+			s.W.Flush()
+		case 2:
+			s.W.FlushError()
+		case 3:
+			http.NewResponseController(s.W).Flush()
 		}
 		if b.status != 0 {
 			s.W.WriteHeader(b.status)
